@@ -166,6 +166,31 @@ def run(ctx):
             if m == 'F' and pr.to_c(exp) != after:
                 ctx.violation({'kind': 'caller-tree-modified-beyond-removal'},
                               f'tree of `{s[:100]}` after analysis differs from the removal pass alone', {'src': s, 'mode': m, 'fin': f})
+    # (b') strict mode never modifies the caller's tree, whatever the function contains (refused or analysed)
+    from pymwp import Analysis as _An, LoopAnalysis as _LA
+    strict_pool = pool + [
+        'int f(int a,int b,int x){ int i; for (i = a; i < b; i++) { while (x < 3) { x = x + 1; } } return x; }',
+        'int f(int x,int y){ while (x++ < 3) { while (y < 2) { y = y + 1; } } }',
+        'int f(int x,int y){ switch (x) { case 1: while (y < 2) { y = y + 1; } break; default: y = 0; } }',
+        'int f(int x,int y){ do { x = a[y]; while (y < 2) { y = y + x; } } while (x = y); }',
+    ]
+    for s_ in strict_pool:
+        try:
+            ast = astwire.parse(s_)
+        except Exception:
+            continue
+        before = pr.to_c(ast)
+        for what, fn_ in (('function mode', lambda a_: _An.run(a_, strict=True)), ('loop mode', lambda a_: _LA.run(a_, strict=True))):
+            try:
+                fn_(ast)
+            except Exception:
+                ctx.count('strict_run_raised')
+            ctx.case(('strict-tree', s_, what), nontrivial=True)
+            ctx.count('strict_tree_checks')
+            if pr.to_c(ast) != before:
+                ctx.violation({'kind': 'caller-tree-modified', 'strict': True},
+                              f'strict {what} modified the tree of `{s_[:100]}`', {'src': s_, 'mode': 'F' if what[0] == 'f' else 'L', 'fin': False})
+                break
     # (c) one of many functions in a file
     singles = [s for s in pool if s.count('int f') == 1 and s.strip().startswith('int f(')][:8]
     # pairs whose first function fails partially / completely and whose second one has a loop of its own
